@@ -202,3 +202,38 @@ func ZZ_C17_ClosedServer() {
 	zzAssert(st == Closed, "C17.closed-replica-reports-other-state")
 	zzReach("C17.closed")
 }
+
+
+// A replica can be attached (opened) only while it is closed: Open on a server that
+// already holds an open replica - clean, dirty or rebuilding, in any mode - is refused
+// and leaves the attached replica, its mode and the directory as they were; Create on
+// it changes nothing either.
+func ZZ_C17_AttachOnce() {
+	state := zzPick("state", "open", "dirty", "rebuilding")
+	s, fs := ZZServer(state, zzConcretize(zzChoice("snaps", 2)))
+	r := s.r
+	mode := zzModes[zzConcretize(zzChoice("mode", 3))] // RW, WO, INIT
+	r.mode = mode
+	if state == "dirty" && zzNondetBool("dirtied-by-write") && mode != types.INIT {
+		// dirty because it took I/O in this session
+		buf := make([]byte, 4096)
+		s.WriteAt(buf, 0)
+	}
+	before := zzMemDigest(r)
+	steps := fs.MutSteps
+	var err error
+	if zzNondetBool("create") {
+		err = s.Create(zzSize)
+		zzReach("C17.attach-once.create")
+	} else {
+		err = s.Open()
+		zzReach("C17.attach-once.open")
+		zzAssert(err != nil, "C17.Open-accepted-on-an-attached-replica")
+	}
+	_ = err
+	zzAssert(s.r == r, "C17.attached-replica-replaced")
+	zzAssert(r.mode == mode, "C17.refused-attach-changed-the-mode")
+	zzAssert(zzSameAttrs(before, zzMemDigest(r)), "C17.refused-attach-changed-the-chain")
+	zzAssert(fs.MutSteps == steps, "C17.refused-attach-touched-the-directory")
+	zzAssert(zzLockDepth(&s.RWMutex) == 0, "C17.attach-once.lock-left-held")
+}
